@@ -214,6 +214,8 @@ def run(ctx):
     r5 = ctx.rule("C03.R5", "ALG: polynomial identities per region: fast == slow; neutral at alpha=0; up variation at +1, down at -1; continuity at every threshold (and of first and second formal derivative for codes 4, 4p); extrapolation uses the matching side", "ALG", floor=40)
     r7 = ctx.rule("C03.R7", "AXES/HISTORY: each vectorised code interpreted END TO END on a 2 systematics x 2 samples x 3 variations x 2 bins histogram set (list tensors): every cell (systematic, sample, alpha column, bin) of the result equals the scalar reference function of the same file applied to that cell's (down, nominal, up) and that systematic's alpha -- for alpha sets mixing all regimes and the breakpoints, and again after calls with other alpha-set shapes on the SAME interpolator", "AXES", floor=15)
     _axes_and_history(ctx, r7, repo, prs)
+    r8 = ctx.rule("C03.R8", "LOOPER: the loop that applies a scalar reference formula cell by cell (_slow_interpolator_looper) interpreted twice in one process with two DIFFERENT formulas of one qualified name (two reference objects of one class, e.g. code 4 with another alpha0) on the same inputs: result[set][histogram][alpha][bin] is THIS formula applied to that bin's (down, nominal, up) and that set's alpha", "LOOPER", floor=2)
+    _looper(ctx, r8, repo)
     r4 = ctx.rule("C03.R4", "FOLD: each A_inverse literal times the defining matrix (rows f(a0), f(-a0), f'(a0), f'(-a0), f''(a0), f''(-a0) of sum a_i alpha^i) is the identity, symbolically in alpha0; rhs vector is [u^a0-1, d^a0-1, ln u u^a0, -ln d d^a0, ln^2 u u^a0, ln^2 d d^a0]", "FOLD", floor=2)
 
     kinds = {}
@@ -766,3 +768,47 @@ def _axes_and_history(ctx, rid, repo, prs):
                     ctx.holds(rid, site, f"{ncell} cells equal the scalar reference")
             except (Undecided, KeyError, TypeError, ValueError, IndexError, AttributeError) as e:
                 ctx.unrecognised(rid, fast.methods["__call__"], f"{fast.name}.__call__ [{lab}]", f"not interpretable: {type(e).__name__}: {e}")
+
+
+def _looper(ctx, rid, repo):
+    from ..alg import Obj, PyFunc
+    from ..objmodel import World
+    INIT = "src/pyhf/interpolators/__init__.py"
+    if not repo.has_func(INIT, "_slow_interpolator_looper"):
+        ctx.unrecognised(rid, repo.module(INIT), "_slow_interpolator_looper", "not found")
+        return
+    f = repo.func(INIT, "_slow_interpolator_looper")
+    ctx.touch(f)
+    at = Poly.atom
+    nS, nH, nA, nB = 2, 2, 3, 2
+    hs = [[[[at(f"{v}_s{s_}h{h}b{b}") for b in range(nB)] for v in ("dn", "nom", "up")] for h in range(nH)] for s_ in range(nS)]
+    al = [[at(f"al_s{s_}a{a}") for a in range(nA)] for s_ in range(nS)]
+
+    def formula(tag):
+        def g(a, k):
+            return fn(f"REF_{tag}", *[to_poly(x) for x in a])
+        return Obj(f"reference formula {tag}", {"__qualname__": "_slow_code4.product", "__name__": "product", "__call__": PyFunc(g, tag)}, closed=True)
+
+    try:
+        w = World({"__strict__": True}, module_env={"exceptions": Obj("exceptions")})
+        w.add_func(f)
+        for tag in ("first", "second"):
+            out = w.call_func(f, [hs, al, formula(tag)])
+            bad = None
+            ok_shape = isinstance(out, list) and len(out) == nS and all(isinstance(x, list) and len(x) == nH and all(isinstance(y, list) and len(y) == nA and all(isinstance(z, list) and len(z) == nB for z in y) for y in x) for x in out)
+            if ok_shape:
+                for s_ in range(nS):
+                    for h in range(nH):
+                        for a in range(nA):
+                            for b in range(nB):
+                                want = fn(f"REF_{tag}", hs[s_][h][0][b], hs[s_][h][1][b], hs[s_][h][2][b], al[s_][a])
+                                if to_poly(out[s_][h][a][b]) != want and bad is None:
+                                    bad = (s_, h, a, b, str(to_poly(out[s_][h][a][b])), str(want))
+            if not ok_shape:
+                ctx.violated(rid, f, f"reference loop, {tag} formula", "the scalar reference is not returned as [set][histogram][alpha][bin]", expected=f"{nS} x {nH} x {nA} x {nB}")
+            elif bad:
+                ctx.violated(rid, f, f"reference loop, {tag} formula", f"cell (set {bad[0]}, histogram {bad[1]}, alpha {bad[2]}, bin {bad[3]}) is {bad[4]}: " + ("a value computed by ANOTHER reference object of the same class earlier in the process is returned (the two differ in alpha0)" if "first" in bad[4] and tag == "second" else "not this formula on this cell's (down, nominal, up, alpha)"), expected=bad[5], found=bad[4])
+            else:
+                ctx.holds(rid, f"{INIT}::_slow_interpolator_looper [{tag} formula]", f"{nS * nH * nA * nB} cells: this formula on the cell's own (down, nominal, up) and its set's alpha")
+    except (Undecided, KeyError, TypeError, ValueError, IndexError, AttributeError) as e:
+        ctx.unrecognised(rid, f, "_slow_interpolator_looper", f"not interpretable: {type(e).__name__}: {e}")
